@@ -5,30 +5,44 @@ import AFV.Lemmas.NestComputes
 namespace AFV.Nest
 open AFV.NestExec
 
-/-- The documented rules (as written in `exec`) applied to a list of rows and a compute count. -/
-def costsE (arch : Arch Rat) (ni : Rat) (acts : List (Lvl × TId × Rat × Rat)) (computes : Rat) : ExecResult :=
-  let lvls := List.range arch.levels.length
-  let used := lvls.filter (fun l => acts.any (fun a => a.1 == l))
-  let lats : List (Lvl × Rat) := used.map (fun l =>
-    let lv := arch.levels.getD l Level.dflt
-    let mine := acts.filter (fun a => a.1 == l)
-    let reads := (mine.map (fun a => a.2.2.1)).foldr (· + ·) 0
-    let writes := (mine.map (fun a => a.2.2.2)).foldr (· + ·) 0
-    (l, if lv.isToll then reads / lv.read.throughput else reads / lv.read.throughput + writes / lv.write.throughput))
-  let computeLat := computes / arch.compute.throughput
-  let overall := (lats.map (·.2)).foldl ratMax computeLat
-  let dyn := (acts.map (fun (l, _, r, wr) =>
+/-- Latency of one component: Σ n_calls / throughput over its actions (read; and write unless it is a Toll). -/
+def latOf (arch : Arch Rat) (acts : List (Lvl × TId × Rat × Rat)) (l : Lvl) : Rat :=
+  let lv := arch.levels.getD l Level.dflt
+  let mine := acts.filter (fun a => a.1 == l)
+  let reads := (mine.map (fun a => a.2.2.1)).foldr (· + ·) 0
+  let writes := (mine.map (fun a => a.2.2.2)).foldr (· + ·) 0
+  if lv.isToll then reads / lv.read.throughput else reads / lv.read.throughput + writes / lv.write.throughput
+
+def usedOf (arch : Arch Rat) (acts : List (Lvl × TId × Rat × Rat)) : List Lvl :=
+  (List.range arch.levels.length).filter (fun l => acts.any (fun a => a.1 == l))
+
+def latsOf (arch : Arch Rat) (acts : List (Lvl × TId × Rat × Rat)) : List (Lvl × Rat) :=
+  (usedOf arch acts).map (fun l => (l, latOf arch acts l))
+
+/-- Overall latency: the maximum over the components (and the compute). -/
+def overallOf (arch : Arch Rat) (acts : List (Lvl × TId × Rat × Rat)) (computes : Rat) : Rat :=
+  ((latsOf arch acts).map (·.2)).foldl ratMax (computes / arch.compute.throughput)
+
+/-- Dynamic energy: Σ count × per-action energy. -/
+def dynOf (arch : Arch Rat) (acts : List (Lvl × TId × Rat × Rat)) (computes : Rat) : Rat :=
+  (acts.map (fun (l, _, r, wr) =>
       let lv := arch.levels.getD l Level.dflt
       r * lv.read.energy + wr * lv.write.energy)).foldr (· + ·) 0 + computes * arch.compute.energy
-  let leak := (arch.levels.map (fun lv => lv.leak * overall)).foldr (· + ·) 0 + arch.compute.leak * overall
+
+/-- Leak energy: leak power × latency, over all components. -/
+def leakOf (arch : Arch Rat) (overall : Rat) : Rat :=
+  (arch.levels.map (fun lv => lv.leak * overall)).foldr (· + ·) 0 + arch.compute.leak * overall
+
+/-- The documented rules (as written in `exec`) applied to a list of rows and a compute count. -/
+def costsE (arch : Arch Rat) (ni : Rat) (acts : List (Lvl × TId × Rat × Rat)) (computes : Rat) : ExecResult :=
   { actions := acts.map (fun (l, t, r, wr) => (l, t, r * ni, wr * ni))
     computes := computes * ni
-    latencies := lats.map (fun (l, x) => (l, x * ni))
-    computeLatency := computeLat * ni
-    totalLatency := overall * ni
-    dynamicEnergy := dyn * ni
-    leakEnergy := leak * ni
-    totalEnergy := leak * ni + dyn * ni }
+    latencies := (latsOf arch acts).map (fun (l, x) => (l, x * ni))
+    computeLatency := computes / arch.compute.throughput * ni
+    totalLatency := overallOf arch acts computes * ni
+    dynamicEnergy := dynOf arch acts computes * ni
+    leakEnergy := leakOf arch (overallOf arch acts computes) * ni
+    totalEnergy := leakOf arch (overallOf arch acts computes) * ni + dynOf arch acts computes * ni }
 
 theorem exec_eq_costs (arch : Arch Rat) (wq : Workload Rat) (wn : Workload Nat) (m : Mapping Nat) :
     exec arch wq wn m = costsE arch wq.nInstances (rowsE arch wq wn m 0 wn.tensors.length)
@@ -44,7 +58,7 @@ theorem exec_eq_costs (arch : Arch Rat) (wq : Workload Rat) (wn : Workload Nat) 
     intro l
     rw [hacts, List.any_map]
     rfl
-  unfold exec costsE
+  unfold exec costsE overallOf latsOf usedOf latOf dynOf leakOf
   simp only [hany]
   rw [hacts]
   rfl
